@@ -52,6 +52,7 @@ structure SynB (α : Type) where
   N : Nat
   /-- `spike_`: rows are batch-major flattened `B × N` tensors, entries `0`/`1` -/
   spike : Ring (List α)
+deriving DecidableEq, Repr
 
 /-- Constructor: `RecordTensor.create(torch.zeros(batchsz, *shape), dt, delay, inclusive=True)`. -/
 def SynB.init (S : SOps α) (c : Cfg α) (B N : Nat) : SynB α :=
@@ -154,6 +155,12 @@ def SynB.step (S : SOps α) (c : Cfg α) (sel : List (List α)) (s : SynB α) (X
 /-- sample `b`'s part of the batched synapse: what a batch-1 copy holds -/
 def SynB.proj (b : Nat) (s : SynB α) : SynB α := ⟨1, s.N, ringSeg (b * s.N) s.N s.spike⟩
 
+/-- sample `b`'s part of what a step returns (positions `a … a+n-1` of the returned row and of the
+delayed currents; errors are kept) -/
+def projOut (a n : Nat) (o : List α × Outcome (List (List (Outcome α)))) :
+    List α × Outcome (List (List (Outcome α))) :=
+  (seg a n o.1, o.2.map (seg a n))
+
 /-- a run of a partial step function over an input sequence (`none` = some step raised) -/
 def runO {σ ι ω : Type} (step : σ → ι → Option (σ × ω)) (s : σ) : List ι → Option (σ × List ω)
   | [] => some (s, [])
@@ -243,6 +250,7 @@ structure DenseB (α : Type) where
   /-- `delay : O × I` when `delayedby` is not `None` -/
   delay : Option (List (List α))
   syn : SynB α
+deriving DecidableEq, Repr
 
 /-- `LinearDense.selector`: `rearrange(delays, "o i -> 1 i o").expand(self.batchsz, -1, -1)`. -/
 def DenseB.selector (c : DenseB α) (d : List (List α)) : List (List α) :=
@@ -263,6 +271,10 @@ def DenseB.forward (S : SOps α) (cfg : Cfg α) (c : DenseB α) (X : List α) :
       | some x => (einsumB S.K c.B c.I c.W c.bias x).map fun y => ({ c with syn := syn' }, y)
     | none => (linearB S.K c.B c.I c.W c.bias res).map fun y => ({ c with syn := syn' }, y)
 
+/-- the state invariant of a `DenseB` (what the constructor establishes): the synapse was built for
+the connection's batch size and input size -/
+def DenseB.Inv (c : DenseB α) : Prop := c.syn.B = c.B ∧ c.syn.N = c.I
+
 /-- the identically parameterised batch-1 copy holding sample `b` -/
 def DenseB.proj (b : Nat) (c : DenseB α) : DenseB α := { c with B := 1, syn := c.syn.proj b }
 
@@ -273,6 +285,7 @@ shared by the batch -/
 structure NeuB (V A : Type) where
   vs : List V
   adapt : A
+deriving DecidableEq, Repr
 
 variable {θ V A I O S : Type}
 
@@ -309,10 +322,70 @@ def drivenRun (dyn : θ → A → V → I → V × O) (p : θ) (v : V) : List (A
     let r' := drivenRun dyn p r.1 rest
     (r'.1, r.2 :: r'.2)
 
+/-- sample `b` of the group as a batch of one (the empty batch when there is no sample `b`), with
+the shared adaptation -/
+def NeuB.proj (b : Nat) (s : NeuB V A) : NeuB V A := ⟨(s.vs[b]?).toList, s.adapt⟩
+
 /-- the inputs of sample `b` with the flags kept (a step lacking an input for `b` gives the empty
 batch) -/
 def sampleSteps (b : Nat) (steps : List (Bool × List I)) : List (Bool × List I) :=
   steps.map fun ax => (ax.1, (ax.2[b]?).toList)
+
+/-! ### the same group on FLAT tensors: `B × N` dynamic state, `N` shared adaptations broadcast -/
+
+/-- a neuron group as the code holds it: ONE flat `B × N` tensor of per-neuron dynamic states
+(voltage, refractory time) and ONE `N` tensor of adaptations shared by the batch -/
+structure NeuFlat (V K : Type) where
+  /-- `batchsz` -/
+  B : Nat
+  /-- neurons per sample -/
+  N : Nat
+  /-- batch-major flattened `B × N` dynamic state -/
+  v : List V
+  /-- shared adaptation, one entry per neuron (not batched) -/
+  adapt : List K
+deriving DecidableEq, Repr
+
+variable {K : Type}
+
+/-- the batch reduction of a flat `B × N` tensor along the batch dimension (`red(value, 0)`): entry
+`i` is `red` of the `B` entries `b·N + i` -/
+def reduceDim0 (red : List K → K) (B N : Nat) (t : List K) : List K :=
+  (List.range N).map fun i => red ((List.range B).filterMap fun b => t[b * N + i]?)
+
+/-- One `forward` on the flat tensors: the `N` adaptations are BROADCAST against the `B × N` state
+(`expandB`), the dynamics and the adaptation proposal are element-wise, and (when adapting) the
+`B × N` proposals are reduced along the batch dimension. -/
+def NeuFlat.step (dyn : θ → K → V → I → V × O) (prop : θ → K → V → O → K) (red : List K → K) (p : θ)
+    (s : NeuFlat V K) (ax : Bool × List I) : NeuFlat V K × List O :=
+  let bc := expandB s.B s.adapt
+  let rs := List.zipWith (fun av x => dyn p av.1 av.2 x) (List.zipWith Prod.mk bc s.v) ax.2
+  let props := List.zipWith (fun a r => prop p a r.1 r.2) bc rs
+  ({ s with v := rs.map (·.1), adapt := if ax.1 then reduceDim0 red s.B s.N props else s.adapt },
+   rs.map (·.2))
+
+def NeuFlat.run (dyn : θ → K → V → I → V × O) (prop : θ → K → V → O → K) (red : List K → K) (p : θ)
+    (s : NeuFlat V K) : List (Bool × List I) → NeuFlat V K × List (List O)
+  | [] => (s, [])
+  | ax :: rest =>
+    let r := NeuFlat.step dyn prop red p s ax
+    let r' := NeuFlat.run dyn prop red p r.1 rest
+    (r'.1, r.2 :: r'.2)
+
+/-- the adaptation tensor in effect at each step -/
+def NeuFlat.adaptSeq (dyn : θ → K → V → I → V × O) (prop : θ → K → V → O → K) (red : List K → K)
+    (p : θ) (s : NeuFlat V K) : List (Bool × List I) → List (List K)
+  | [] => []
+  | ax :: rest =>
+    s.adapt :: NeuFlat.adaptSeq dyn prop red p (NeuFlat.step dyn prop red p s ax).1 rest
+
+/-- the batch-1 copy holding sample `b` (same shared adaptation) -/
+def NeuFlat.proj (b : Nat) (s : NeuFlat V K) : NeuFlat V K :=
+  ⟨1, s.N, seg (b * s.N) s.N s.v, s.adapt⟩
+
+/-- sample `b`'s rows of every step's input, flags kept -/
+def flatSteps (b N : Nat) (steps : List (Bool × List I)) : List (Bool × List I) :=
+  steps.map fun ax => (ax.1, seg (b * N) N ax.2)
 
 /-! ## §4 Σ-reduction of tensor-valued updates -/
 
@@ -335,5 +408,11 @@ def trainRunB (step : θ → S → I → S × O) (u : S → I → List Int) (P :
   | [] => (acc, Ss)
   | Xs :: rest =>
     trainRunB step u P p (trainStepB u P acc Ss Xs) (InfernoVerif.Batch.stepB step p Ss Xs).1 rest
+
+/-- the accumulated update of sample `b` run ALONE (a batch of one holding the state `s`, fed the
+`b`-th input of every step) from a zero accumulator — the same `trainRunB` code with `B = 1` -/
+def aloneAcc (step : θ → S → I → S × O) (u : S → I → List Int) (P : Nat) (p : θ) (s : S) (b : Nat)
+    (XXs : List (List I)) : List Int :=
+  (trainRunB step u P p (List.replicate P 0) [s] (XXs.map fun Xs => (Xs[b]?).toList)).1
 
 end InfernoVerif.BatchB
